@@ -12,7 +12,7 @@ from itertools import combinations_with_replacement, permutations, product
 
 from . import graphs as G
 
-COLOURS = (G.C, G.H, G.D, G.C13, G.CRAD, G.O, G.N, G.CL, G.C13RAD)
+COLOURS = (G.C, G.H, G.D, G.C13, G.CRAD, G.O, G.N, G.CL, G.C13RAD, G.NO256, G.LR, G.MD256, G.NO)
 CI = {c: i for i, c in enumerate(COLOURS)}
 
 
@@ -68,6 +68,9 @@ QUICK_SPACES = [
     (6, A1, None),
     (6, alphabet(G.C, G.C13), 1),
     (6, alphabet(G.C, G.CRAD), 1),
+    # isotope masses >= 256 next to the following element (invariants packed into bytes, string vs number order)
+    (3, alphabet(G.O, G.NO256, G.LR, G.MD256, G.NO), None),
+    (4, alphabet(G.O, G.NO256, G.LR), None),
 ]
 THOROUGH_SPACES = QUICK_SPACES + [
     (4, A7, None),
@@ -449,7 +452,12 @@ def _kept(d_in, d_out):
     """Every attribute of the input atom and every chemically meaningful attribute is the same on the output atom
     (absence included); additional bookkeeping keys on the output are not the property's business."""
     keys = (set(d_in) | set(_MEANINGFUL)) - set(_IGNORED_NODE_KEYS)
-    return all(d_in.get(k, _ABSENT) == d_out.get(k, _ABSENT) for k in keys)
+
+    def val(d, k):
+        v = d.get(k, _ABSENT)
+        # an explicit default (0) of charge / mass / radical means the same as an absent value (cf. C07)
+        return _ABSENT if k in ("chg", "mass", "rad") and v == 0 and v is not False else v
+    return all(val(d_in, k) == val(d_out, k) for k in keys)
 
 
 def _c12_state(n, st, g, gc, s, vios, res, tag=""):
@@ -509,7 +517,7 @@ def _c12_state(n, st, g, gc, s, vios, res, tag=""):
     af = snapshot(gc2)
     if _meaningful(b4) != _meaningful(af):
         vio("C12|serialize-mutates", "serialize_molecule changed chemically meaningful data of its argument")
-    if s2 != s or s3 != s:
+    if s2 != s3 or (s is not None and s2 != s):
         vio("C12|repeat", f"repeated canonicalize+serialize differs: {s!r} vs {s2!r} / {s3!r}")
     # the caller owns the result: scribble on it; canonicalizing the same input again must be unaffected
     ref = snapshot(gc2)
@@ -546,6 +554,15 @@ def _c12_derived_inputs(n, st, vios, res):
         h.add_edges_from(g.edges(data=True))
         return h
     variants["reversed-insertion"] = rev
+
+    def edited_attribute():
+        # the caller labelled an atom after building the graph (derived bookkeeping attributes are now stale)
+        h = g.copy()
+        for k in h.nodes:
+            h.nodes[k]["mass"] = 14
+            break
+        return h
+    variants["attribute-edited-after-construction"] = edited_attribute
     for name, mk in variants.items():
         try:
             h = mk()
@@ -554,7 +571,7 @@ def _c12_derived_inputs(n, st, vios, res):
             continue
         res["transitions"] += 1
         sub = []
-        _c12_state(n, st, h, None, s, sub, res, tag=f"|{name}")
+        _c12_state(n, st, h, None, None if name == "attribute-edited-after-construction" else s, sub, res, tag=f"|{name}")
         for key, case in sub:
             case = dict(case)
             case["kind"] = "e1-c12-derived"
